@@ -150,7 +150,7 @@ func alphabet(server bool) []op {
 			}
 			continue
 		}
-		for _, variant := range []string{"normal=true", "normal=false", "title", "mask(title),normal=true", "mask(normal)=true", "mask(normal,title)=true", "mask(title,normal)=true", "upsert,mask(title)"} {
+		for _, variant := range []string{"normal=true", "normal=false", "title", "mask(title),normal=true", "mask(normal)=true", "mask(normal,title)=true", "mask(title,normal)=true", "upsert,mask(title)", "upsert,mask()"} {
 			variant := variant
 			if server && strings.HasPrefix(variant, "upsert") {
 				continue // create-if-absent is a write option of the model API
@@ -170,6 +170,11 @@ func alphabet(server bool) []op {
 					// is a mode like any other (filed under its id AND carrying it)
 					md.Title = "u3"
 					mask = &fieldmaskpb.FieldMask{Paths: []string{"title"}}
+				case "upsert,mask()":
+					// the same with a mask that is there and names nothing ("write no field"): what it creates has
+					// no field but its id
+					md.Title = "u4"
+					mask = &fieldmaskpb.FieldMask{}
 				case "mask(title),normal=true":
 					md.Normal = true
 					mask = &fieldmaskpb.FieldMask{Paths: []string{"title"}}
